@@ -403,8 +403,8 @@ def main(tier, seed, replay=None):
             hs = res.tagged("H")
             if q and nxt == "HHNext":
                 hs = par.sample(hs, 8, seed)
-            if len(hs) > 12000:
-                k = len(hs) // 12000 + 1
+            if len(hs) > 8000:
+                k = len(hs) // 8000 + 1
                 hs = par.sample(hs, k, seed)
             groups = hist.group_by_schedule(hs, sched_key, exp_obs)
             jobs = [(root_path, L, sched, exps,
@@ -417,7 +417,7 @@ def main(tier, seed, replay=None):
                 if viol:
                     rep.violation(viol[0], viol[1], case, size=viol[2])
         # free interleavings (simulated), judged by trace validation
-        num = 400 if q else 15000
+        num = 400 if q else 6000
         sim = tlc.run("MC_Hierarchy", CFG.format(L=3, d=12, alt="FALSE",
                                                  next="HHNext"),
                       workers=1, timeout=3000, simulate="num=%d" % num,
